@@ -128,6 +128,7 @@ META = {
     "C10-io-condition-wait-closed-check-dropped": ("C10", "p_socket_io_condition_wait lost its closed check; needs a direct call on a closed socket with the error code or the time checked"),
     "C11-md5-reset-keeps-len-high": ("C11", "MD5 reset no longer clears len_high; needs 2^32 bytes hashed, a reset, then any message on the same object"),
     "C12-foreach-thread-counter-8bit": ("C12", "foreach counts pending thread links in a pint8; needs an unbalanced BST with a left spine of more than 256 links and an early stop"),
+    "C13-rb-node-freed-before-repaint-decision": ("C13", "RB remove frees the node before reading its colour for the repaint of the promoted child; needs an allocator that overwrites freed blocks and a black one-child removal"),
     "C14-rb-replace-keeps-destroyed-key": ("C14", "RB replace no longer stores the new key: the destroyed old key stays in the node; needs equal keys that are different objects and a key notifier"),
     "C15-chain-search-compares-low-word": ("C15", "the chain search compares P_POINTER_TO_INT of the keys; needs two keys that differ only above bit 31"),
     "C16-bom-check-signed-char": ("C16", "the BOM bytes are compared as plain char; needs a file with a BOM in front of the first header on a signed-char platform"),
